@@ -30,7 +30,8 @@ func validStream(c *Case, res *Result, o GenOpts, maxBlocksFn func(cfg Config) i
 		cfg.Jobs = min(cfg.Jobs, 2)
 		cfg.DecJobs = min(cfg.DecJobs, 2)
 	}
-	legacy := o.LegacyWriter && t.Intn(6) == 0
+	bigBWT := o.BigBWT && ((!c.Thorough() && c.Index%1200 == 11) || (c.Thorough() && t.Intn(150) == 0))
+	legacy := o.LegacyWriter && t.Intn(6) == 0 && !bigBWT
 	if legacy && t.Intn(2) == 0 {
 		// chains whose stages expand small blocks (the pinned encoder keeps them whatever they cost)
 		exp := []string{"SRT", "SRT", "MTFT", "TEXT", "BWTS", "RANK", "MM", "ZRLT", "SRT"}
@@ -55,6 +56,22 @@ func validStream(c *Case, res *Result, o GenOpts, maxBlocksFn func(cfg Config) i
 				cfg.DecJobs = []int{2, 3, 64, 63, 16}[t.Intn(5)]
 			}
 		}
+	}
+	if bigBWT {
+		// blocks above 4 MiB: the inverse BWT splits its work over the jobs given to the block
+		// (helper goroutines), which depends on the decoder job count and on the declared size
+		cfg.Transform = []string{"BWT", "BWT+ZRLT", "TEXT+BWT+RANK+ZRLT", "BWT+MTFT"}[t.Intn(4)]
+		cfg.Entropy = []string{"NONE", "ANS0", "HUFFMAN"}[t.Intn(3)]
+		cfg.BlockSize = 4*1024*1024 + 16*(1+t.Intn(32*1024))
+		cfg.Jobs = 1 + t.Intn(2)
+		cfg.DecJobs = 1 + t.Intn(8)
+		rec = DataRecipe{Shape: []string{"text", "prose", "mixed"}[t.Intn(3)], Seed: t.Seed()}
+		if t.Intn(3) == 0 {
+			rec.Len = cfg.BlockSize + cfg.BlockSize/2 + t.Intn(100000)
+		} else {
+			rec.Len = cfg.BlockSize - t.Intn(64*1024)
+		}
+		res.Probes["geometry.big.bwt"]++
 	}
 	data = rec.Bytes()
 	hintValue(&cfg, len(data), t)
@@ -150,7 +167,7 @@ func C05(c *Case) *Result {
 	if c.Thorough() {
 		maxJobs = 64
 	}
-	cfg, data, stream, parsed, ok := validStream(c, res, GenOpts{SkipOpt: true, Cheap: t.Intn(8) != 0, MaxJobs: maxJobs, MaxBlock: 8192, ExactHint: true, Headerless: true, MaxChain: 8, Geometry: true, LegacyWriter: true},
+	cfg, data, stream, parsed, ok := validStream(c, res, GenOpts{SkipOpt: true, Cheap: t.Intn(8) != 0, MaxJobs: maxJobs, MaxBlock: 8192, ExactHint: true, Headerless: true, MaxChain: 8, Geometry: true, LegacyWriter: true, BigBWT: true},
 		func(cfg Config) int { return min(3*cfg.DecJobs+2, 70) })
 	if !ok {
 		return res
@@ -533,7 +550,9 @@ func C09(c *Case) *Result {
 func C11(c *Case) *Result {
 	res := newResult(c)
 	t := c.Tape
-	cfg, data, stream, parsed, ok := validStream(c, res, GenOpts{SkipOpt: true, Cheap: t.Intn(8) != 0, MaxJobs: 8, MaxBlock: 4096, ExactHint: true, Headerless: true, MaxChain: 3},
+	// (a fifth of the streams with an advisory size hint that is not the true size; the special
+	// geometries give streams of 60-150 blocks, beyond the 63 the declared size can express)
+	cfg, data, stream, parsed, ok := validStream(c, res, GenOpts{SkipOpt: true, Cheap: t.Intn(8) != 0, MaxJobs: 8, MaxBlock: 4096, ExactHint: t.Intn(5) != 0, Headerless: true, MaxChain: 3, Geometry: true},
 		func(cfg Config) int { return 12 })
 	if !ok {
 		return res
@@ -614,8 +633,36 @@ func C11(c *Case) *Result {
 		}
 		return nil
 	}
-	for from := 1; from <= nblocks+3; from++ {
-		for to := from; to <= nblocks+3; to++ {
+	if nblocks <= 14 {
+		for from := 1; from <= nblocks+3; from++ {
+			for to := from; to <= nblocks+3; to++ {
+				if r := try(from, to); r != nil {
+					return r
+				}
+			}
+		}
+	} else {
+		// many blocks: sampled ranges, aimed at the last blocks, at the 63-block limit of the declared
+		// size and at whole-stream ranges
+		res.Probes["range.sampled.many.blocks"]++
+		for k := 0; k < 14; k++ {
+			var from, to int
+			switch k % 5 {
+			case 0:
+				from = 1 + t.Intn(nblocks)
+				to = from + t.Intn(nblocks+3-from+1)
+			case 1:
+				from = max(1, nblocks-t.Intn(12))
+				to = from + t.Intn(nblocks+3-from+1)
+			case 2:
+				from = max(1, min(nblocks, 58+t.Intn(10)))
+				to = min(nblocks+2, from+1+t.Intn(12))
+			case 3:
+				from, to = 1, nblocks+1-t.Intn(3)
+			default:
+				from = 1 + t.Intn(nblocks)
+				to = from + 1 + t.Intn(3)
+			}
 			if r := try(from, to); r != nil {
 				return r
 			}
